@@ -185,6 +185,8 @@ pub enum Target {
   Jsr,
   /// the same npm package requirement as `Npm`, with a sub path
   NpmSub,
+  /// another specifier of the package of `Jsr` (same requirement, a sub path)
+  JsrSub,
 }
 
 #[derive(Clone, Copy, PartialEq, Eq, Hash, Debug)]
@@ -287,6 +289,7 @@ impl World {
       Target::FileLiteral => "file:///w/local.ts".into(),
       Target::Bare => "bare-pkg".into(),
       Target::Jsr => "jsr:@s/pkg@1".into(),
+      Target::JsrSub => "jsr:@s/pkg@1/sub".into(),
     }
   }
 
@@ -396,7 +399,7 @@ impl World {
       let form = forms[pick("form", forms.len())];
       let mut targets: Vec<Target> = (0..o.n_specs).map(Target::Spec).collect();
       if o.special_targets {
-        targets.extend([Target::Node, Target::Npm, Target::Data, Target::Bare, Target::Jsr, Target::NpmSub]);
+        targets.extend([Target::Node, Target::Npm, Target::Data, Target::Bare, Target::Jsr, Target::NpmSub, Target::JsrSub]);
         if remote {
           targets.extend([Target::Http, Target::FileLiteral]);
         }
